@@ -180,8 +180,27 @@ Proof.
   - exact H.
 Qed.
 
-Lemma Inv_exec_body : forall bs s, Inv s -> Inv (fst (run_body exec_bop bs s)).
-Proof. intros bs s H. apply (run_body_inv st exec_bop Inv Inv_exec_bop). exact H. Qed.
+Lemma Inv_enter_advance : forall a s, Inv s -> Inv (enter_advance a s).
+Proof.
+  intros a s H. apply (Inv_emit_plain _ EIter) in H; cbn; auto.
+  destruct H as [Hp Hco Hl Hk Hro]. split; assumption.
+Qed.
+
+Lemma Inv_nested : forall adv, (forall s, Inv s -> Inv (adv s)) -> forall a s, Inv s -> Inv (nested adv a s).
+Proof.
+  intros adv Hadv a s H. unfold nested. pose proof (Hadv _ (Inv_enter_advance a s H)) as H1.
+  destruct (raised_now _); [exact H1|]. apply Inv_emit_plain; cbn; auto.
+Qed.
+
+Lemma Inv_run_cbody : forall adv, (forall s, Inv s -> Inv (adv s)) ->
+  forall bs s, Inv s -> Inv (fst (run_cbody adv bs s)).
+Proof.
+  intros adv Hadv bs. induction bs as [|b r IH]; intros s H; cbn [run_cbody]; [exact H|].
+  destruct b as [b|a].
+  - destruct b; try (apply IH; apply Inv_exec_bop; exact H). exact H.
+  - pose proof (Inv_nested adv Hadv a s H) as H1. destruct (raised_now (nested adv a s)); [exact H1|].
+    apply IH. exact H1.
+Qed.
 
 Lemma Inv_sorted : forall s,
   Inv s -> Inv (mkSt (sort getTime (calls s)) (now s) (next s) (log s) (oof s)).
@@ -199,7 +218,7 @@ Lemma Inv_set_oof : forall s b, Inv s -> Inv (mkSt (calls s) (now s) (next s) (l
 Proof. intros s b [Hp Hco Hl Hk Hro]. split; assumption. Qed.
 
 Section WithBody.
-  Variable body : nat -> list bop.
+  Variable body : nat -> list cop.
 
   Lemma Inv_loop : forall fuel s, Inv s -> Inv (loop body fuel s).
   Proof.
@@ -227,8 +246,8 @@ Section WithBody.
           * cbn [log]. rewrite runs_cons. cbn [run_of app]. constructor; [exact Hro|].
             apply Forall_forall. intros ci Hin E1 E2 E3.
             specialize (Hk ci Hin E2). inversion Hk as [|? ? Hc0 _]; subst. apply Hc0; auto. }
-        pose proof (Inv_exec_body (body (cid c)) _ H1) as H2.
-        destruct (snd (run_body exec_bop (body (cid c)) (mkSt r (now s) (next s) (ERun c (now s) r :: log s) (oof s)))).
+        pose proof (Inv_run_cbody (loop body f) IH (body (cid c)) _ H1) as H2.
+        destruct (snd (run_cbody (loop body f) (body (cid c)) (mkSt r (now s) (next s) (ERun c (now s) r :: log s) (oof s)))).
         * apply Inv_emit_plain; cbn; auto.
         * apply IH. apply Inv_emit_plain; cbn; auto.
   Qed.
@@ -309,7 +328,7 @@ Section WithBody.
     - pose proof (sort_head_min getTime (calls s)) as Hmin.
       destruct (sort getTime (calls s)) as [|c r] eqn:E; cbn [calls now]; [constructor|].
       destruct (getTime c <=? now s) eqn:Hdue.
-      + destruct (snd (run_body exec_bop (body (cid c)) _)).
+      + destruct (snd (run_cbody (loop body f) (body (cid c)) _)).
         * intros _ Hn. exfalso. apply Hn. eexists _, _. reflexivity.
         * apply IH.
       + intros _ _. cbn. specialize (Hmin c r eq_refl). constructor; [lia|].
@@ -324,27 +343,14 @@ Section WithBody.
     intros Ho Ha. apply loop_done; [exact Ho|]. intros [i [rest E]]. rewrite E in Ha. discriminate.
   Qed.
 
-  (** an exception raised by a call function leaves every other call as it was: still pending, to be run by
-      a later advance (the partition theorem counts the raising call as run) *)
-  Lemma exec_bop_now : forall b s, now (exec_bop s b) = now s.
-  Proof. intros b s. destruct b; cbn; try reflexivity; destruct (find_id _ _); reflexivity. Qed.
-
-  Lemma run_body_now : forall bs s, now (fst (run_body exec_bop bs s)) = now s.
+  (** a nested advance that returns (no exception, fuel sufficient) leaves nothing due either *)
+  Lemma nested_done : forall f a s, let s' := nested (loop body f) a s in
+    oof s' = false -> raised_now s' = false -> Forall (fun c => now s' < getTime c) (calls s').
   Proof.
-    intros bs s. apply (run_body_inv st exec_bop (fun x => now x = now s)); [|reflexivity].
-    intros x b Hx. rewrite exec_bop_now. exact Hx.
-  Qed.
-
-  Lemma loop_now : forall fuel s, now (loop body fuel s) = now s.
-  Proof.
-    induction fuel as [|f IH]; intros s; cbn [loop].
-    - destruct (sort getTime (calls s)) as [|c r]; cbn; [reflexivity|].
-      destruct (getTime c <=? now s); reflexivity.
-    - destruct (sort getTime (calls s)) as [|c r]; cbn [now]; [reflexivity|].
-      destruct (getTime c <=? now s); cbn [now]; [|reflexivity].
-      destruct (snd (run_body exec_bop (body (cid c)) _)).
-      + cbn. rewrite run_body_now. reflexivity.
-      + rewrite IH. cbn. rewrite run_body_now. reflexivity.
+    intros f a s. cbn zeta. unfold nested.
+    destruct (raised_now (loop body f (enter_advance a s))) eqn:Er; [intros _ Hr; congruence|].
+    cbn [emit oof calls now]. intros Ho _. apply loop_done; [exact Ho|].
+    intros [i [rest E]]. unfold raised_now in Er. rewrite E in Er. discriminate.
   Qed.
 
   (** ---- nondecreasing scheduled time (needs non-negative delays / advances) ---- *)
@@ -395,12 +401,25 @@ Section WithBody.
     - exact H.
   Qed.
 
-  Hypothesis body_nonneg : forall i, Forall nonneg_bop (body i).
+  Hypothesis body_nonneg : forall i, Forall nonneg_cop (body i).
 
-  Lemma ND_exec_body : forall bs s, Forall nonneg_bop bs -> ND s -> ND (fst (run_body exec_bop bs s)).
+  Lemma ND_nested : forall adv, (forall s, ND s -> ND (adv s)) -> forall a s, 0 <= a -> ND s -> ND (nested adv a s).
   Proof.
-    induction bs as [|b r IH]; cbn; intros s Hb H; [exact H|].
-    inversion Hb; subst. destruct b; try (apply IH; [assumption|]; apply ND_exec_bop; assumption). exact H.
+    intros adv Hadv a s Ha H. unfold nested.
+    assert (H0 : ND (enter_advance a s)).
+    { destruct H as [H1 H2 H3]. unfold enter_advance, run_times, runs in *. split; cbn; auto.
+      intros t Ht. specialize (H1 t Ht). lia. }
+    pose proof (Hadv _ H0) as H1. destruct (raised_now _); [exact H1|]. apply ND_emit_plain; auto.
+  Qed.
+
+  Lemma ND_run_cbody : forall adv, (forall s, ND s -> ND (adv s)) ->
+    forall bs s, Forall nonneg_cop bs -> ND s -> ND (fst (run_cbody adv bs s)).
+  Proof.
+    intros adv Hadv bs. induction bs as [|b r IH]; intros s Hb H; cbn [run_cbody]; [exact H|].
+    inversion Hb as [|? ? Hb1 Hb2]; subst. destruct b as [b|a]; cbn in Hb1.
+    - destruct b; try (apply IH; [assumption|]; apply ND_exec_bop; assumption). exact H.
+    - pose proof (ND_nested adv Hadv a s Hb1 H) as H1. destruct (raised_now (nested adv a s)); [exact H1|].
+      apply IH; assumption.
   Qed.
 
   Lemma ND_sorted : forall s, ND s -> ND (mkSt (sort getTime (calls s)) (now s) (next s) (log s) (oof s)).
@@ -420,15 +439,15 @@ Section WithBody.
       destruct (sort getTime (calls s)) as [|c r] eqn:E.
       + exact Hs.
       + destruct (getTime c <=? now s) eqn:Hdue; [|exact Hs].
-        assert (H1 : ND (fst (run_body exec_bop (body (cid c)) (mkSt r (now s) (next s) (ERun c (now s) r :: log s) (oof s))))).
-        { apply ND_exec_body; [apply body_nonneg|].
+        assert (H1 : ND (fst (run_cbody (loop body f) (body (cid c)) (mkSt r (now s) (next s) (ERun c (now s) r :: log s) (oof s))))).
+        { apply ND_run_cbody; [exact IH | apply body_nonneg|].
           destruct Hs as [H1 H2 H3]. specialize (Hmin c r eq_refl). rewrite Forall_forall in Hmin.
           unfold run_times, runs in *. cbn in *. split; cbn.
           * intros t [<-|Ht]; [lia | auto].
           * intros t c0 [<-|Ht] Hin; [apply Hmin; exact Hin | apply H2; auto].
           * constructor; [exact H3|]. apply Forall_forall. intros t Ht.
             specialize (H2 t c Ht (or_introl eq_refl)). lia. }
-        destruct (snd (run_body exec_bop (body (cid c)) _)).
+        destruct (snd (run_cbody (loop body f) (body (cid c)) _)).
         * apply ND_emit_plain; auto.
         * apply IH. apply ND_emit_plain; auto.
   Qed.
@@ -481,16 +500,16 @@ Proof. intros. apply (inv_ro _ (reach_Inv body fuel ops)). Qed.
 
 (** a non-trivial history: three calls for the same time, one rescheduled away and back, a call
     whose function schedules an immediate call and cancels another, negative-free *)
-Definition ex_body (i : nat) : list bop :=
+Definition ex_body (i : nat) : list cop :=
   match i with
-  | 0%nat => [BCallLater 0; BCancel 1; BReset 2 0]
+  | 0%nat => [Op (BCallLater 0); Op (BCancel 1); Op (BReset 2 0)]
   | _ => []
   end.
 Definition ex_ops : list op :=
   [Do (BCallLater 5); Do (BCallLater 5); Do (BCallLater 9); Do (BCallLater 5);
    Do (BReset 3 7); Do (BDelay 3 0); Advance 5; Advance 4].
 
-Example ex_nonneg : Forall nonneg_op ex_ops /\ (forall i, Forall nonneg_bop (ex_body i)).
+Example ex_nonneg : Forall nonneg_op ex_ops /\ (forall i, Forall nonneg_cop (ex_body i)).
 Proof.
   split.
   - repeat constructor; cbn; lia.
@@ -505,9 +524,9 @@ Proof. vm_compute. repeat split. Qed.
 
 (** a call function that raises: Clock.advance propagates the exception, the call counts as run, the other due
     calls stay pending and run in the next advance (here advance(0)) *)
-Definition ex_raise_body (i : nat) : list bop :=
+Definition ex_raise_body (i : nat) : list cop :=
   match i with
-  | 0%nat => [BCallLater 0; BRaise; BCancel 1]
+  | 0%nat => [Op (BCallLater 0); Op BRaise; Op (BCancel 1)]
   | _ => []
   end.
 Example ex_raise :
@@ -515,4 +534,20 @@ Example ex_raise :
   let s2 := step ex_raise_body 10 s1 (Advance 0) in
   run_ids (log s1) = [0%nat] /\ map cid (calls s1) = [1; 2]%nat /\ advance_aborted s1 = true
   /\ rev (run_ids (log s2)) = [0; 1; 2]%nat /\ calls s2 = [] /\ advance_aborted s2 = false.
+Proof. vm_compute. repeat split. Qed.
+
+(** re-entrant advance: call 0 (due at 1) advances the clock by 1 itself and then does callLater(0): the new
+    call is due at 2 = the new current time, and the OUTER advance(1) runs it before it returns; depth 2 with a
+    far call pulled into the window by delay(-6) *)
+Definition ex_reentrant_body (i : nat) : list cop :=
+  match i with
+  | 0%nat => [CAdvance 1; Op (BReset 2 0)]
+  | 1%nat => [CAdvance 2; Op (BDelay 3 (-6)); Op (BCallLater 0)]
+  | _ => []
+  end.
+Example ex_reentrant :
+  let s := run ex_reentrant_body 10 init
+             [Do (BCallLater 1); Do (BCallLater 2); Do (BCallLater 9); Do (BCallLater 9); Advance 1] in
+  rev (run_ids (log s)) = [0; 1; 3; 4; 2]%nat /\ rev (run_times (log s)) = [1; 2; 3; 4; 4] /\ now s = 4
+  /\ calls s = [] /\ oof s = false /\ advance_aborted s = false.
 Proof. vm_compute. repeat split. Qed.
